@@ -7,4 +7,5 @@ INVARIANT I_NoHandlerAbove
 INVARIANT P_ServeBelow
 INVARIANT I_Once
 INVARIANT I_AcceptUntilFinal
+INVARIANT I_NoSilentDrop
 CHECK_DEADLOCK FALSE
